@@ -6,19 +6,21 @@
 (* DvidKV: every accepted / refused flag and every read result must be the *)
 (* one the specification allows in the state reached so far.               *)
 (***************************************************************************)
-EXTENDS DvidKV, Json
+EXTENDS DvidKVU, Json
 
 TraceLog == ndJsonDeserialize("kv_trace.ndjson")
 
 VARIABLE l
-tvars == <<nn, par, kids, br, lk, kind, rp, uid, head, dead, last, ent, l>>
+tvars == <<nn, par, kids, br, lk, kind, rp, uid, head, dead, last, ent, uent, l>>
 
-TInit == KVInit /\ l = 1
+TInit == KVUInit /\ l = 1
 IsEvent(e) == l <= Len(TraceLog) /\ TraceLog[l].ev = e /\ l' = l + 1
 T == TraceLog[l]
 
 \* repo-level requests are DvidDAG's actions; the data is untouched
-Dag(A) == A /\ UNCHANGED ent
+Dag(A) == A /\ UNCHANGED <<ent, uent>>
+\* requests on the versioned instance leave the unversioned one alone
+Ver(A) == A /\ UNCHANGED uent
 
 \* the number the driver gives a created node is the position of its UUID among the UUIDs seen so far: a server that
 \* hands out a UUID twice produces a number that is not nn + 1
@@ -28,17 +30,29 @@ TCommit == IsEvent("commit") /\ Dag(IF T.ok THEN Commit_Ok(T.node) ELSE Commit_R
 TNewVersion == IsEvent("newversion") /\ Dag(IF T.ok THEN NewIs /\ NewVersion_Ok(T.node, "auto") ELSE NewVersion_Rej(T.node, "auto"))
 TBranch == IsEvent("branch") /\ Dag(IF T.ok THEN NewIs /\ Branch_Ok(T.node, T.branch, "auto") ELSE Branch_Rej(T.node, T.branch, "auto"))
 TMerge == IsEvent("merge") /\ Dag(IF T.ok THEN NewIs /\ Merge_Ok(T.parents) ELSE Merge_Rej(T.parents))
-TPut == IsEvent("put") /\ (IF T.ok THEN Put_Ok(T.node, T.key, T.val) ELSE Write_Rej(T.node))
-TDel == IsEvent("del") /\ (IF T.ok THEN Del_Ok(T.node, T.key) ELSE Write_Rej(T.node))
-TGet == IsEvent("get") /\ (Get(T.node, T.key, T.res) \/ Dev_InnerMergeConflict(T.node, T.key, T.res))
+TPut == IsEvent("put") /\ Ver(IF T.ok THEN Put_Ok(T.node, T.key, T.val) ELSE Write_Rej(T.node))
+TDel == IsEvent("del") /\ Ver(IF T.ok THEN Del_Ok(T.node, T.key) ELSE Write_Rej(T.node))
+TGet == IsEvent("get") /\ Ver(Get(T.node, T.key, T.res) \/ Dev_InnerMergeConflict(T.node, T.key, T.res))
+\* the same requests with the version named as <root>:<branch> (the event carries no node: the
+\* specification says which version the address names)
+TB == BranchNode(T.root, T.branch)
+TPutB == IsEvent("putb") /\ Ver(IF T.ok THEN Put_Ok(TB, T.key, T.val) ELSE Write_Rej(TB))
+TDelB == IsEvent("delb") /\ Ver(IF T.ok THEN Del_Ok(TB, T.key) ELSE Write_Rej(TB))
+TGetB == IsEvent("getb") /\ Ver(IF TB = NoNode THEN T.res = -1 /\ UNCHANGED <<dagvars, ent, last>>
+                                ELSE Get(TB, T.key, T.res) \/ Dev_InnerMergeConflict(TB, T.key, T.res))
+\* requests on the unversioned instance of the node's repo
+TUPut == IsEvent("uput") /\ (IF T.ok THEN UPut_Ok(T.node, T.key, T.val) ELSE UWrite_Rej(T.node))
+TUDel == IsEvent("udel") /\ (IF T.ok THEN UDel_Ok(T.node, T.key) ELSE UWrite_Rej(T.node))
+TUGet == IsEvent("uget") /\ UGet(T.node, T.key, T.res)
 \* a restart is a stuttering step (C03)
-TRestart == IsEvent("restart") /\ UNCHANGED <<dagvars, ent, last>>
+TRestart == IsEvent("restart") /\ UNCHANGED <<dagvars, ent, uent, last>>
 \* several traces are validated in one run
 TReset == IsEvent("reset") /\ nn' = 0 /\ par' = <<>> /\ kids' = <<>> /\ br' = <<>> /\ lk' = <<>> /\ kind' = <<>>
           /\ rp' = <<>> /\ uid' = <<>> /\ head' = <<>> /\ dead' = {} /\ last' = [op |-> "init", ok |-> TRUE]
-          /\ ent' = [k \in Keys |-> <<>>]
+          /\ ent' = [k \in Keys |-> <<>>] /\ uent' = [k \in Keys |-> <<>>]
 
 TNext == TNewRepo \/ TCommit \/ TNewVersion \/ TBranch \/ TMerge \/ TPut \/ TDel \/ TGet \/ TRestart \/ TReset
+         \/ TPutB \/ TDelB \/ TGetB \/ TUPut \/ TUDel \/ TUGet
 TSpec == TInit /\ [][TNext]_tvars
 
 TraceAccepted == TLCGet("stats").diameter - 1 = Len(TraceLog)
